@@ -66,6 +66,9 @@ def undo_single(ctx, info, doc, step, res_doc, reqs, metas, origin, expect_known
         # aimed cases of c04_guard (a private non-transitive schema): the failure is the subject of the guard tie there
         if not expect_known:
             ctx.violation("undo-" + type(step).__name__, "applying the inverted step does not restore the original document", r)
+    if origin != "history" and isinstance(step, c04_ops.NODE_STEPS):
+        # the executable guard of the node-level steps (nodeStepGuardB_family) against the real undo
+        c04_ops.request_node_step(ctx, info, doc, step, ok, reqs, metas, replay)
     # inverse map
     m, mi = step.get_map(), inv.get_map()
     size_new = res_doc.content.size
@@ -127,6 +130,12 @@ def run(ctx):
             if op == "familyGuard":
                 c04_ops.compare(ctx, replay, payload, out)
                 continue
+            if op == "nodeStepGuard":
+                c04_ops.compare_node(ctx, replay, payload, out)
+                continue
+            if op == "plainType":
+                c04_ops.compare_plain(ctx, replay, payload, out)
+                continue
             if op == "invert-raises":
                 if "ok" in out:
                     ctx.mismatch("invert", replay, "impl invert raises", out)
@@ -152,11 +161,15 @@ def run(ctx):
     def history(info, d, docs, kinds, nops, forced=None):
         tr = Transform(d)
         log = []
+        raw = []
         for i in range(len(forced) if forced is not None else nops):
             name, args, thunk = forced[i] if forced is not None else ops.plan_op(rng, info, tr.doc, docs, kinds)
             snap = (len(tr.steps), len(tr.docs), len(tr.mapping.maps), tr.doc)
             st, val, added = ops.run_op(tr, thunk)
             log.append(ops.describe(name, args) | {"outcome": st, "steps_added": added})
+            raw.extend([(name, args, st)] * added)
+            if name == "set_block_type" and added:
+                c04_ops.request_plain(ctx, info, args[2], reqs, metas, {"schema": info.name})
             ctx.count("op:" + name + ":" + ("ok" if st == "ok" else "rejected"))
             if not (len(tr.steps) == len(tr.docs) == len(tr.mapping.maps)):
                 ctx.violation("alignment", "steps/docs/maps are not aligned one-to-one",
@@ -228,21 +241,33 @@ def run(ctx):
                                node_mark=node_mark_info(tr.steps[k], tr.docs[k]) if tr.steps else None))
         # every single recorded step also undoes exactly (it is a step emitted by a high-level operation)
         owner = [l["op"] for l in log for _ in range(l["steps_added"])]
+        # set_block_type to a plain target type that went through (setBlockType_residual is about completed operations)
+        plain = [nm == "set_block_type" and st_ == "ok" and c04_ops.py_plain(a[2]) for nm, a, st_ in raw]
         for k, s in enumerate(tr.steps):
             nxt = tr.docs[k + 1] if k + 1 < len(tr.docs) else tr.doc
+            if k < len(owner) and owner[k] in c04_ops.NODE_OPS and isinstance(s, c04_ops.NODE_STEPS):
+                # node-level operations: the guard of nodeOps_residual on the operation's recorded step (c04_ops.py)
+                sti, inv = outcome(lambda: s.invert(tr.docs[k]))
+                stb, back = outcome(lambda: inv.apply(nxt)) if sti == "ok" else ("internal", None)
+                c04_ops.request_node(ctx, info, tr.docs[k], s, nxt, owner[k], raw[k][1],
+                                     stb == "ok" and back.doc is not None and back.doc.eq(tr.docs[k]),
+                                     declared(s, tr.docs[k]), reqs, metas, {"schema": info.name})
             if k < len(owner) and owner[k] in c04_ops.STRUCT and isinstance(s, (ReplaceStep, ReplaceAroundStep)):
                 # the guard of the undo theorem on the steps the structural operations record (c04_ops.py)
                 sti, inv = outcome(lambda: s.invert(tr.docs[k]))
                 stb, back = outcome(lambda: inv.apply(nxt)) if sti == "ok" else ("internal", None)
                 c04_ops.request(ctx, info, tr.docs[k], s, nxt, owner[k],
                                 stb == "ok" and back.doc is not None and back.doc.eq(tr.docs[k]), reqs, metas,
-                                {"schema": info.name})
+                                {"schema": info.name}, plain=k < len(plain) and plain[k])
             if isinstance(s, SINGLE_UNDO):
                 undo_single(ctx, info, tr.docs[k], s, nxt, reqs, metas, "history", oracle=declared(s, tr.docs[k]))
             elif isinstance(s, c04_marks.MARK_STEPS):
                 # range mark steps: the guard of their naive inverse (exact tie) and the planner theorems
                 c04_marks.single(ctx, info, tr.docs[k], s, nxt, reqs, metas, "history",
-                                 planned=k < len(owner) and owner[k] in ("add_mark", "remove_mark"))
+                                 planned=k < len(owner) and (owner[k] in ("add_mark", "remove_mark") or
+                                                             (k < len(plain) and plain[k])))
+                if k < len(plain) and plain[k]:
+                    ctx.count("sbt-plain:remove-mark-step")
 
     def bridge_steps(d):
         """aimed: merge two differently typed siblings through an open node of a third type that joins onto both"""
